@@ -19,7 +19,7 @@ RULE = (
     "operations (lint / parse / render / fix-on-a-copy of other files, other dialects, other rule selections incl. disable_noqa_except which touches the shared rule reference map) executed in ONE "
     "process under a sys.addaudithook monitor (open-for-write, os.rename/replace/remove/chmod/truncate/mkdir, shutil.*), followed by a lint of the probe file; the same probe lint is run in a fresh "
     "process with PYTHONHASHSEED 0 and 1 and twice in the history process; oracle: no write-type audit event touches an input path, directory listing / content hashes / inode / mtime unchanged, and "
-    "the probe's violations identical in all four runs; distinct = script hash; non-trivial = history executed >= 5 operations and the probe reports >= 1 violation"
+    "the probe's violations identical in all four runs; a string-route stage lints a fixed probe string on ONE Linter and through sqlfluff.lint with ONE FluffConfig before and after strings carrying inline '-- sqlfluff:' directives (2- and 3-level keys), violations must be identical; distinct = script hash; non-trivial = history executed >= 5 operations and the probe reports >= 1 violation"
 )
 ASSUMPTIONS = ["sys.addaudithook sees every open()/os-level mutation made from Python code in the process"]
 TIMEOUT = {"quick": 900, "thorough": 1800}
@@ -56,6 +56,19 @@ def script(idx):
     for _ in range(r.randint(5, 20)):
         ops.append({"op": r.choice(["lint", "lint", "parse", "render", "fix_copy", "lint_except", "lint_rules", "shared_lint", "shared_lint", "shared_ctx_a"]), "file": r.randrange(len(files)), "rules": r.choice([None, "core", "LT01,CP01", "layout"]), "except": r.choice(["LT01", "CP0*", "PRS"])})
     return {"files": files, "ops": ops, "probe": r.randrange(len(files))}
+
+
+# string route: one Linter / one FluffConfig object serves several strings, some carrying inline directives
+STR_PROBE = "SELECT a, b from t\nwhere x = 1 and y = 2 -- a trailing comment that makes this line rather long indeed\n"
+INLINE_TEXTS = [
+    "-- sqlfluff:rules:capitalisation.keywords:capitalisation_policy:lower\nselect 1\n",
+    "-- sqlfluff:layout:type:comma:line_position:leading\nselect a\n    , b\nfrom t\n",
+    "-- sqlfluff:max_line_length:20\nselect 1\n",
+    "-- sqlfluff:rules:LT01\nselect  1\n",
+    "-- sqlfluff:exclude_rules:CP01\nSELECT 1 from t\n",
+    "-- sqlfluff:indentation:tab_space_size:2\nselect\n  1\n",
+    "-- sqlfluff:rules:aliasing.table:aliasing:implicit\nselect a from t as u\n",
+]
 
 
 def _viol(linted):
@@ -161,6 +174,29 @@ def _driver():
         shared_lint(os.path.join(d, "ctx_a", "q.sql"), "ansi", "jinja")
         out["probe_shared"] = shared_lint(os.path.join(d, p["name"]), p["dialect"], p["templater"])
         out["ctx_b_shared"] = shared_lint(ctx_b, "ansi", "jinja")
+        # string route on shared objects: plain -> strings with inline directives -> plain again
+        import sqlfluff
+        from sqlfluff.core import FluffConfig
+
+        texts = list(INLINE_TEXTS)
+        rng("c32-str", json.dumps(sc["ops"])).shuffle(texts)
+        sl = Linter(config=FluffConfig(overrides={"dialect": "ansi"}))
+        out["str_first"] = _viol(sl.lint_string(STR_PROBE))
+        cfg = FluffConfig(overrides={"dialect": "ansi"})
+        out["api_first"] = [[v["code"], v["start_line_no"], v["start_line_pos"], v["description"]] for v in sqlfluff.lint(STR_PROBE, config=cfg)]
+        for t in texts:
+            try:
+                sl.lint_string(t)
+                sl.parse_string(t)
+                sl.lint_string(t, fix=True)
+                sqlfluff.lint(t, config=cfg)
+                sqlfluff.fix(t, config=cfg)
+                sqlfluff.parse(t, config=cfg)
+            except Exception as e:
+                out.setdefault("op_errors", []).append(f"string_route: {type(e).__name__}")
+            out["ops"] += 1
+        out["str_after"] = _viol(sl.lint_string(STR_PROBE))
+        out["api_after"] = [[v["code"], v["start_line_no"], v["start_line_pos"], v["description"]] for v in sqlfluff.lint(STR_PROBE, config=cfg)]
     else:
         p = files[sc["probe"]]
         out["probe"] = _lint_file(os.path.join(d, p["name"]), p["dialect"], p["templater"])
@@ -228,6 +264,9 @@ def run_case(case):
         runs = {"history_first": hist["probe_first"], "after_history": hist["probe_after"], "again_same_process": hist["probe_again"], "shared_linter_after_history": hist["probe_shared"], "fresh_hashseed0": fresh0["probe"], "fresh_hashseed1": fresh1["probe"]}
         if hist["ctx_b_shared"] != fresh0["ctx_b"]:
             fails.append({"sig": "violations_differ:shared_linter_other_directory_context", "detail": {"fresh": fresh0["ctx_b"][:4], "after_history_same_linter": hist["ctx_b_shared"][:4]}})
+        for a, b in (("str_first", "str_after"), ("api_first", "api_after")):
+            if json.dumps(hist[a]) != json.dumps(hist[b]):
+                fails.append({"sig": f"violations_differ:string_route_shared_{'linter' if a.startswith('str') else 'config'}", "detail": {"first": hist[a][:6], "after_strings_with_inline_directives": hist[b][:6]}})
         ref = runs["fresh_hashseed0"]
         for name, v in runs.items():
             if v != ref:
@@ -235,7 +274,7 @@ def run_case(case):
         return {
             "status": "fail" if fails else "pass",
             "failures": fails[:3],
-            "counters": {"history_ops": hist["ops"], "audit_events_seen": hist["audit_events"], "probe_comparisons": 4},
+            "counters": {"history_ops": hist["ops"], "audit_events_seen": hist["audit_events"], "probe_comparisons": 6, "string_route_probe_violations": len(hist["str_first"])},
             "key": case["id"] if hist["ops"] >= 5 and ref else None,
             "sample": {"files": [(f["name"], f["dialect"], f["templater"]) for f in sc["files"]], "ops": [o["op"] for o in sc["ops"]], "probe_violations": len(ref), "audit_events": hist["audit_events"]} if case["idx"] % 10 == 0 else None,
         }
